@@ -28,7 +28,7 @@
     with [id = h_next h] and [h_ok] an explicit heap.  Corollaries [f_total] instantiate the
     oracle with [fun _ => false]. *)
 From CJ Require Import Base Dbl Heap Forest ForestLemmas CoreSpec CoreDefs CoreRefineBase CoreRefine
-  CoreRefineDelete CoreRefineMore.
+  CoreRefineDelete CoreRefineReplace CoreRefineMore.
 From CJ.gen Require Import Constants.
 From stdpp Require Import gmap.
 Implicit Types (h : heap) (F : forest) (p x y i b : positive) (d : rdata).
@@ -337,4 +337,441 @@ Proof.
   - apply set_eq. intros b. destruct (Pos.ltb_spec b (h_next h)) as [Hb|Hb].
     + by apply Hlo.
     + split; intros Hin; [by apply Hhi in Hin|]. pose proof (LB b Hin). lia.
+Qed.
+
+(** * PART 1: constructors *)
+
+Section Constructors.
+  Variable oracle : nat -> bool.
+
+  (** ** cJSON_strdup *)
+  Lemma cJSON_strdup_null h : cJSON_strdup oracle None h = Ret (None, h).
+  Proof. reflexivity. Qed.
+
+  Lemma cJSON_strdup_fail h sb : Readable h sb -> oracle (h_req h) = true ->
+    cJSON_strdup oracle (Some sb) h = Ret (None, bump h).
+  Proof.
+    intros HR Ho. unfold cJSON_strdup. cbn [is_null].
+    rewrite (bindM_Ret _ _ _ _ _ (run_ld_cstr_readable _ _ HR)).
+    by rewrite (bindM_Ret _ _ _ _ _ (run_alloc_bytes_fail _ _ _ Ho)).
+  Qed.
+
+  Lemma cJSON_strdup_ok h sb : Readable h sb -> oracle (h_req h) = false ->
+    cJSON_strdup oracle (Some sb) h = Ret (Some (h_next h), new_str h (str_at h sb ++ [0%Z])).
+  Proof.
+    intros HR Ho. unfold cJSON_strdup. cbn [is_null].
+    rewrite (bindM_Ret _ _ _ _ _ (run_ld_cstr_readable _ _ HR)).
+    rewrite (bindM_Ret _ _ _ _ _ (run_alloc_bytes_ok _ _ _ Ho)). cbn [is_null].
+    erewrite (bindM_Ret _ _ _ _ _ (run_st_str_plain _ (h_next h) (repeat 0%Z (S (length (str_at h sb)))) _ _ _ _ _)).
+    - unfold ret. do 2 f_equal. unfold set_str, new_str. cbn. f_equal. by rewrite insert_insert.
+    Unshelve.
+    + cbn. set_solver.
+    + cbn. by rewrite lookup_insert.
+    + cbn. by rewrite lookup_insert.
+    + rewrite app_length, repeat_length. cbn. lia.
+  Qed.
+
+  (** the copy is a readable string with the same contents, and old strings stay readable *)
+  Lemma Readable_new_str h s b : Readable h b -> live_below h -> Readable (new_str h s) b.
+  Proof.
+    intros (H1 & s0 & H2 & H3) LB. pose proof (LB _ H1). split; [cbn; set_solver|]. exists s0. cbn.
+    rewrite lookup_insert_ne by lia. done.
+  Qed.
+  Lemma cstr_app_zero (s : bytes) : Forall (fun c => c <> 0%Z) s -> cstr (s ++ [0%Z]) = s.
+  Proof.
+    induction s as [|c s IH]; intros H; [done|]. apply Forall_cons in H as [Hc H]. cbn.
+    destruct (Z.eqb_spec c 0); [done|]. by rewrite IH.
+  Qed.
+  Lemma cstr_nonzero' (s : bytes) : Forall (fun c => c <> 0%Z) (cstr s).
+  Proof.
+    induction s as [|c s IH]; cbn; [constructor|]. destruct (Z.eqb_spec c 0); [constructor|]. by constructor.
+  Qed.
+  Lemma str_at_new_str h (s : bytes) : str_at (new_str h (cstr s ++ [0%Z])) (h_next h) = cstr s.
+  Proof. unfold str_at. cbn. rewrite lookup_insert. apply cstr_app_zero, cstr_nonzero'. Qed.
+
+  (** the two-branch statement *)
+  Lemma cJSON_strdup_sim h F sb :
+    WF h F -> live_below h -> Readable h sb ->
+    (oracle (h_req h) = false /\
+     let h' := new_str h (str_at h sb ++ [0%Z]) in
+     cJSON_strdup oracle (Some sb) h = Ret (Some (h_next h), h') /\
+     WF h' F /\ live_below h' /\ Readable h' (h_next h) /\ str_at h' (h_next h) = str_at h sb /\
+     h_own h' !! h_next h = Some Lib /\ h_next h ∉ owned F)
+    \/ (cJSON_strdup oracle (Some sb) h = Ret (None, bump h) /\ clean_failure h (bump h) /\ refused oracle h (bump h)).
+  Proof.
+    intros W LB HR. destruct (oracle (h_req h)) eqn:Ho.
+    - right. split; [by apply cJSON_strdup_fail|]. split; [apply clean_failure_bump|].
+      exists (h_req h). cbn. split; [lia|done].
+    - left. split; [done|]. cbn zeta. split; [by apply cJSON_strdup_ok|]. split; [|split; [by apply live_below_new_str|]].
+      + destruct W as [W1 W2 W3 W4 W5 W6 W7 W8]. constructor; try done.
+        * intros b Hb. cbn. apply elem_of_union. right. by apply W5.
+        * intros b Hb. cbn. pose proof (W7 b Hb). rewrite lookup_insert_ne by lia. by apply W6.
+        * intros b Hb. cbn. pose proof (W7 b Hb). lia.
+      + split; [|split; [|split]].
+        * split; [cbn; set_solver|]. eexists. cbn. rewrite lookup_insert. split; [done|].
+          rewrite existsb_app. cbn. by rewrite orb_true_r.
+        * unfold str_at at 1. cbn. rewrite lookup_insert. apply cstr_app_zero.
+          unfold str_at. destruct (h_str h !! sb); [apply cstr_nonzero'|constructor].
+        * cbn. by rewrite lookup_insert.
+        * by apply (WF_next_notin _ _ W).
+  Qed.
+
+  (** ** data of the nodes the constructors make *)
+  Definition rd_of_type (ty : Z) : rdata := mkRD ty None 0 dzero None None.
+  Definition rd_number (num : dbl) : rdata := mkRD c_cJSON_Number None (sat_int num) num None None.
+  Definition rd_string (ty : Z) (sb : positive) : rdata := mkRD ty (Some sb) 0 dzero None None.
+  Definition rd_string_ref (string : ptr) : rdata :=
+    mkRD (Z.lor c_cJSON_String c_cJSON_IsReference) string 0 dzero None None.
+  Definition rd_container_ref (ty : Z) (child : ptr) : rdata :=
+    mkRD (Z.lor ty c_cJSON_IsReference) None 0 dzero None child.
+
+  Lemma new_node_set h d nd' d' :
+    nd' = mk_dat d' [] ->
+    set_dat (new_node h d) (<[h_next h := nd']> (h_dat (new_node h d))) = new_node h d'.
+  Proof. intros ->. unfold set_dat, upd_maps, new_node. cbn. f_equal. by rewrite insert_insert. Qed.
+  Lemma new_node_live h d : h_next h ∈ h_live (new_node h d).
+  Proof. cbn. set_solver. Qed.
+  Lemma new_node_dat h d : h_dat (new_node h d) !! h_next h = Some (mk_dat d []).
+  Proof. cbn. by rewrite lookup_insert. Qed.
+
+  (** ** the payload-free constructors and cJSON_CreateNumber, cJSON_Create*Reference:
+      one request, then field stores on the fresh node *)
+  Definition ctor1_post (m : M ptr) h F d : Prop :=
+    (oracle (h_req h) = false /\
+     m h = Ret (Some (h_next h), new_node h d) /\
+     WF (new_node h d) (spec_create F (h_next h) d) /\ live_below (new_node h d) /\
+     (NoLeak h F -> NoLeak (new_node h d) (spec_create F (h_next h) d)))
+    \/ (oracle (h_req h) = true /\ m h = Ret (None, bump h) /\ clean_failure h (bump h) /\ refused oracle h (bump h)).
+
+  Lemma ctor1_intro (m : M ptr) h F d :
+    WF h F -> live_below h -> owned_strs d = [] -> (rd_ref d <> None -> is_ref d = true) ->
+    (oracle (h_req h) = false -> m h = Ret (Some (h_next h), new_node h d)) ->
+    (oracle (h_req h) = true -> m h = Ret (None, bump h)) ->
+    ctor1_post m h F d.
+  Proof.
+    intros W LB Hs Hr Hok Hfail. destruct (oracle (h_req h)) eqn:Ho.
+    - right. split; [done|]. split; [by apply Hfail|]. split; [apply clean_failure_bump|].
+      exists (h_req h). cbn. split; [lia|done].
+    - left. split; [done|]. split; [by apply Hok|]. split; [by apply WF_new_node|].
+      split; [by apply live_below_new_node|by apply NoLeak_new_node].
+  Qed.
+
+  Lemma create_with_type_sim ty h F : WF h F -> live_below h -> ctor1_post (create_with_type oracle ty) h F (rd_of_type ty).
+  Proof.
+    intros W LB. apply ctor1_intro; try done.
+    - unfold owned_strs. cbn. by destruct (is_ref _), (is_const _).
+    - intros Ho. unfold create_with_type, cJSON_New_Item. rewrite (bindM_Ret _ _ _ _ _ (run_alloc_node_ok _ _ Ho)).
+      cbn [is_null negb when].
+      rewrite (bindM_Ret _ _ _ _ _ (run_set_type_plain _ _ _ ty (new_node_live _ _) (new_node_dat _ _))).
+      unfold ret. do 2 f_equal. by apply new_node_set.
+    - intros Ho. unfold create_with_type, cJSON_New_Item. by rewrite (bindM_Ret _ _ _ _ _ (run_alloc_node_fail _ _ Ho)).
+  Qed.
+
+  Lemma cJSON_CreateNull_sim h F : WF h F -> live_below h -> ctor1_post (cJSON_CreateNull oracle) h F (rd_of_type c_cJSON_NULL).
+  Proof. apply create_with_type_sim. Qed.
+  Lemma cJSON_CreateTrue_sim h F : WF h F -> live_below h -> ctor1_post (cJSON_CreateTrue oracle) h F (rd_of_type c_cJSON_True).
+  Proof. apply create_with_type_sim. Qed.
+  Lemma cJSON_CreateFalse_sim h F : WF h F -> live_below h -> ctor1_post (cJSON_CreateFalse oracle) h F (rd_of_type c_cJSON_False).
+  Proof. apply create_with_type_sim. Qed.
+  Lemma cJSON_CreateBool_sim (b : bool) h F : WF h F -> live_below h ->
+    ctor1_post (cJSON_CreateBool oracle b) h F (rd_of_type (if b then c_cJSON_True else c_cJSON_False)).
+  Proof. apply create_with_type_sim. Qed.
+  Lemma cJSON_CreateArray_sim h F : WF h F -> live_below h -> ctor1_post (cJSON_CreateArray oracle) h F (rd_of_type c_cJSON_Array).
+  Proof. apply create_with_type_sim. Qed.
+  Lemma cJSON_CreateObject_sim h F : WF h F -> live_below h -> ctor1_post (cJSON_CreateObject oracle) h F (rd_of_type c_cJSON_Object).
+  Proof. apply create_with_type_sim. Qed.
+
+  Lemma cJSON_CreateNumber_sim num h F : WF h F -> live_below h -> ctor1_post (cJSON_CreateNumber oracle num) h F (rd_number num).
+  Proof.
+    intros W LB. apply ctor1_intro; try done.
+    - intros Ho. unfold cJSON_CreateNumber, cJSON_New_Item. rewrite (bindM_Ret _ _ _ _ _ (run_alloc_node_ok _ _ Ho)).
+      cbn [is_null negb when]. rewrite !bindM_assoc.
+      rewrite (bindM_Ret _ _ _ _ _ (run_set_type_plain _ _ _ c_cJSON_Number (new_node_live _ _) (new_node_dat _ _))).
+      rewrite (new_node_set h _ _ (rd_of_type c_cJSON_Number)) by reflexivity. rewrite !bindM_assoc.
+      rewrite (bindM_Ret _ _ _ _ _ (run_set_vdbl_plain _ _ _ num (new_node_live _ _) (new_node_dat _ _))).
+      rewrite (new_node_set h _ _ (mkRD c_cJSON_Number None 0 num None None)) by reflexivity.
+      rewrite (bindM_Ret _ _ _ _ _ (run_set_vint_plain _ _ _ (sat_int num) (new_node_live _ _) (new_node_dat _ _))).
+      rewrite (new_node_set h _ _ (rd_number num)) by reflexivity. reflexivity.
+    - intros Ho. unfold cJSON_CreateNumber, cJSON_New_Item. by rewrite (bindM_Ret _ _ _ _ _ (run_alloc_node_fail _ _ Ho)).
+  Qed.
+
+  (** ** the reference constructors: one request; the argument is only stored, never read *)
+  Lemma cJSON_CreateStringReference_sim (string : ptr) h F :
+    WF h F -> live_below h -> ctor1_post (cJSON_CreateStringReference oracle string) h F (rd_string_ref string).
+  Proof.
+    intros W LB. apply ctor1_intro; try done.
+    - intros Ho. unfold cJSON_CreateStringReference, cJSON_New_Item. rewrite (bindM_Ret _ _ _ _ _ (run_alloc_node_ok _ _ Ho)).
+      cbn [is_null negb when]. rewrite !bindM_assoc.
+      rewrite (bindM_Ret _ _ _ _ _ (run_set_type_plain _ _ _ (Z.lor c_cJSON_String c_cJSON_IsReference) (new_node_live _ _) (new_node_dat _ _))).
+      rewrite (new_node_set h _ _ (rd_of_type (Z.lor c_cJSON_String c_cJSON_IsReference))) by reflexivity.
+      rewrite (bindM_Ret _ _ _ _ _ (run_set_vstr_plain _ _ _ string (new_node_live _ _) (new_node_dat _ _))).
+      rewrite (new_node_set h _ _ (rd_string_ref string)) by reflexivity. reflexivity.
+    - intros Ho. unfold cJSON_CreateStringReference, cJSON_New_Item. by rewrite (bindM_Ret _ _ _ _ _ (run_alloc_node_fail _ _ Ho)).
+  Qed.
+
+  Lemma create_container_reference_sim (ty : Z) (child : ptr) h F :
+    WF h F -> live_below h ->
+    ctor1_post (item <~ cJSON_New_Item oracle ;;
+                when (negb (is_null item)) (set_type item (Z.lor ty c_cJSON_IsReference) ;;; set_child item child) ;;;
+                ret item) h F (rd_container_ref ty child).
+  Proof.
+    intros W LB.
+    assert (Hisref : is_ref (rd_container_ref ty child) = true).
+    { unfold is_ref, rd_container_ref. cbn [rd_type]. rewrite Z.land_lor_distr_l.
+      change (Z.land c_cJSON_IsReference c_cJSON_IsReference) with 256%Z.
+      destruct (Z.eqb_spec (Z.lor (Z.land ty c_cJSON_IsReference) 256) 0) as [E|]; [|done].
+      apply Z.lor_eq_0_iff in E as [_ E]. done. }
+    apply ctor1_intro; try done.
+    - unfold owned_strs. rewrite Hisref. cbn. by destruct (is_const _).
+    - intros Ho. unfold cJSON_New_Item. rewrite (bindM_Ret _ _ _ _ _ (run_alloc_node_ok _ _ Ho)).
+      cbn [is_null negb when]. rewrite !bindM_assoc.
+      rewrite (bindM_Ret _ _ _ _ _ (run_set_type_plain _ _ _ (Z.lor ty c_cJSON_IsReference) (new_node_live _ _) (new_node_dat _ _))).
+      rewrite (new_node_set h _ _ (rd_of_type (Z.lor ty c_cJSON_IsReference))) by reflexivity.
+      rewrite (bindM_Ret _ _ _ _ _ (run_set_child_plain _ _ _ child (new_node_live _ _) (new_node_dat _ _))).
+      rewrite (new_node_set h _ _ (rd_container_ref ty child)) by reflexivity. reflexivity.
+    - intros Ho. unfold cJSON_New_Item. by rewrite (bindM_Ret _ _ _ _ _ (run_alloc_node_fail _ _ Ho)).
+  Qed.
+  Lemma cJSON_CreateObjectReference_sim (child : ptr) h F :
+    WF h F -> live_below h -> ctor1_post (cJSON_CreateObjectReference oracle child) h F (rd_container_ref c_cJSON_Object child).
+  Proof. apply create_container_reference_sim. Qed.
+  Lemma cJSON_CreateArrayReference_sim (child : ptr) h F :
+    WF h F -> live_below h -> ctor1_post (cJSON_CreateArrayReference oracle child) h F (rd_container_ref c_cJSON_Array child).
+  Proof. apply create_container_reference_sim. Qed.
+
+  (** ** releasing a node that was just allocated (and owns nothing else): back to the start *)
+  Lemma free_order_leaf id d : owned_strs d = [] -> free_order [T id d []] = [id].
+  Proof. intros Hs. unfold free_order. cbn. by rewrite Hs. Qed.
+
+  Lemma cJSON_Delete_new_node h F d hx :
+    WF h F -> live_below h -> owned_strs d = [] -> (rd_ref d <> None -> is_ref d = true) ->
+    hx = new_node h d \/ hx = bump (new_node h d) ->
+    cJSON_Delete (Some (h_next h)) hx = Ret (tt, free1 (h_next h) hx) /\ clean_failure h (free1 (h_next h) hx).
+  Proof.
+    intros W LB Hs Hr Hx. pose proof (WF_new_node _ _ _ W Hs Hr) as W1.
+    assert (Wx : WF hx (spec_create F (h_next h) d)).
+    { destruct Hx as [->| ->]; [done|]. apply (clean_failure_WF _ _ _ W1), clean_failure_bump. }
+    assert (Hroot : find_root (h_next h) (spec_create F (h_next h) d) = Some (T (h_next h) d [])).
+    { unfold spec_create. rewrite find_root_app_r.
+      - unfold find_root. cbn. by rewrite bool_decide_eq_true_2.
+      - intros Hin. apply (WF_next_notin _ _ W). by apply ids_subseteq_owned, roots_subseteq_ids. }
+    destruct (cJSON_Delete_sim _ _ _ _ Wx Hroot) as (_ & Hrun & _ & _).
+    rewrite (free_order_leaf _ _ Hs) in Hrun. split; [exact Hrun|].
+    apply (clean_failure_intro _ _ F W LB).
+    - intros b Hb. assert (b <> h_next h) by lia.
+      destruct Hx as [->| ->]; cbn; rewrite !lookup_delete_ne, ?lookup_insert_ne by done; (split_and!; try done; set_solver).
+    - intros b Hb. destruct (decide (b = h_next h)) as [->|Hne].
+      + destruct Hx as [->| ->]; cbn; rewrite !lookup_delete; (split_and!; try done; set_solver).
+      + pose proof (WF_above_lnk _ _ _ W Hb) as H1. pose proof (WF_above_dat _ _ _ W Hb) as H2.
+        assert (b ∉ h_live h) by (intros Hin; pose proof (LB b Hin); lia).
+        destruct Hx as [->| ->]; cbn; rewrite !lookup_delete_ne, !lookup_insert_ne by done; (split_and!; try done; set_solver).
+    - destruct Hx as [->| ->]; cbn; lia.
+    - destruct Hx as [->| ->]; cbn; lia.
+    - by destruct Hx as [->| ->].
+    - destruct Hx as [->| ->]; cbn; by eexists [_; _].
+  Qed.
+
+  (** ** cJSON_CreateString / cJSON_CreateRaw: two requests (node, then the copy) *)
+  Definition new_string h (ty : Z) (s : bytes) : heap :=
+    new_str (new_node h (rd_string ty (Pos.succ (h_next h)))) s.
+
+  Lemma Readable_new_node h d b : Readable h b -> Readable (new_node h d) b.
+  Proof. intros (H1 & s0 & H2 & H3). split; [cbn; set_solver|]. by exists s0. Qed.
+  Lemma Readable_bump h b : Readable h b -> Readable (bump h) b.
+  Proof. done. Qed.
+
+  Lemma owned_strs_of_type ty : owned_strs (rd_of_type ty) = [].
+  Proof. unfold owned_strs. cbn. by destruct (is_ref _), (is_const _). Qed.
+
+  Lemma WF_new_string h F ty s :
+    WF h F -> Z.land ty c_cJSON_IsReference = 0%Z -> Z.land ty c_cJSON_StringIsConst = 0%Z ->
+    WF (new_string h ty s) (spec_create F (h_next h) (rd_string ty (Pos.succ (h_next h)))).
+  Proof.
+    intros W Hr Hc. set (id := h_next h). set (sb := Pos.succ id).
+    assert (Hs : owned_strs (rd_string ty sb) = [sb]).
+    { unfold owned_strs, is_ref, is_const. cbn [rd_type rd_string]. by rewrite Hr, Hc. }
+    unfold spec_create. apply (WF_new_root h _ F id _ W); rewrite ?Hs; try done.
+    - by apply (WF_next_notin _ _ W).
+    - intros b Hb. apply elem_of_list_singleton in Hb as ->. intros Hin. pose proof (wf_fresh _ _ W _ Hin). unfold sb, id in *. lia.
+    - apply NoDup_cons. split; [|apply NoDup_singleton]. intros Hin%elem_of_list_singleton. unfold sb in Hin. lia.
+    - intros b Hb. cbn in Hb. cbn. fold id. fold sb.
+      apply elem_of_cons in Hb as [->|Hb]; [|apply elem_of_cons in Hb as [->|Hb]].
+      + split; [set_solver|]. split; [|unfold sb; lia]. rewrite lookup_insert_ne by (unfold sb; lia). by rewrite lookup_insert.
+      + split; [set_solver|]. split; [by rewrite lookup_insert|lia].
+      + pose proof (wf_fresh _ _ W _ Hb). fold id in H. split; [|split].
+        * do 2 (apply elem_of_union; right). by apply (wf_owned_live _ _ W).
+        * rewrite !lookup_insert_ne by (unfold sb; lia). by apply (wf_owned_lib _ _ W).
+        * unfold sb. lia.
+  Qed.
+  Lemma NoLeak_new_string h F ty s :
+    Z.land ty c_cJSON_IsReference = 0%Z -> Z.land ty c_cJSON_StringIsConst = 0%Z ->
+    NoLeak h F -> NoLeak (new_string h ty s) (spec_create F (h_next h) (rd_string ty (Pos.succ (h_next h)))).
+  Proof.
+    intros Hr Hc NL. apply (NoLeak_new_root h _ F _ _ NL). intros b Hb.
+    assert (Hs : owned_strs (rd_string ty (Pos.succ (h_next h))) = [Pos.succ (h_next h)]).
+    { unfold owned_strs, is_ref, is_const. cbn [rd_type rd_string]. by rewrite Hr, Hc. }
+    rewrite Hs. unfold lib_live in *. apply elem_of_filter in Hb as [Hb1 Hb2]. cbn in Hb1, Hb2.
+    destruct (decide (b = h_next h)) as [->|Hne]; [right; by left|].
+    destruct (decide (b = Pos.succ (h_next h))) as [->|Hne']; [right; right; by left|left].
+    apply elem_of_filter. rewrite !lookup_insert_ne in Hb1 by done. split; [done|set_solver].
+  Qed.
+
+  Lemma create_string_like_sim ty h F sb :
+    WF h F -> live_below h -> Readable h sb ->
+    Z.land ty c_cJSON_IsReference = 0%Z -> Z.land ty c_cJSON_StringIsConst = 0%Z ->
+    (let id := h_next h in let d := rd_string ty (Pos.succ id) in
+     let h' := new_string h ty (str_at h sb ++ [0%Z]) in
+     oracle (h_req h) = false /\ oracle (S (h_req h)) = false /\
+     create_string_like oracle ty (Some sb) h = Ret (Some id, h') /\
+     WF h' (spec_create F id d) /\ live_below h' /\ (NoLeak h F -> NoLeak h' (spec_create F id d)) /\
+     Readable h' (Pos.succ id) /\ str_at h' (Pos.succ id) = str_at h sb)
+    \/ (exists h', create_string_like oracle ty (Some sb) h = Ret (None, h') /\ clean_failure h h' /\ refused oracle h h').
+  Proof.
+    intros W LB HR Hr Hc. unfold create_string_like, cJSON_New_Item.
+    destruct (oracle (h_req h)) eqn:Ho.
+    { right. exists (bump h). rewrite (bindM_Ret _ _ _ _ _ (run_alloc_node_fail _ _ Ho)). cbn [is_null].
+      split; [done|]. split; [apply clean_failure_bump|]. exists (h_req h). cbn. split; [lia|done]. }
+    rewrite (bindM_Ret _ _ _ _ _ (run_alloc_node_ok _ _ Ho)). cbn [is_null].
+    rewrite (bindM_Ret _ _ _ _ _ (run_set_type_plain _ _ _ ty (new_node_live _ _) (new_node_dat _ _))).
+    rewrite (new_node_set h _ _ (rd_of_type ty)) by reflexivity.
+    set (h1 := new_node h (rd_of_type ty)).
+    assert (HR1 : Readable h1 sb) by (by apply Readable_new_node).
+    destruct (oracle (S (h_req h))) eqn:Ho2.
+    - right. assert (Ho2' : oracle (h_req h1) = true) by done.
+      rewrite (bindM_Ret _ _ _ _ _ (cJSON_strdup_fail _ _ HR1 Ho2')).
+      assert (Hl : h_next h ∈ h_live (bump h1)) by (cbn; set_solver).
+      assert (Hd : h_dat (bump h1) !! h_next h = Some (mk_dat (rd_of_type ty) [])) by (cbn; by rewrite lookup_insert).
+      rewrite (bindM_Ret _ _ _ _ _ (run_set_vstr_plain _ _ _ None Hl Hd)).
+      assert (Heq : set_dat (bump h1) (<[h_next h := nd_set_vstr (mk_dat (rd_of_type ty) []) None]> (h_dat (bump h1))) = bump h1).
+      { unfold set_dat, upd_maps, bump, h1, new_node. cbn. f_equal. by rewrite insert_insert. }
+      rewrite Heq. rewrite (bindM_Ret _ _ _ _ _ (run_get_vstr_plain _ _ _ Hl Hd)). cbn [nd_vstr mk_dat rd_vstr rd_of_type is_null].
+      destruct (cJSON_Delete_new_node h F (rd_of_type ty) (bump h1) W LB (owned_strs_of_type ty) ltac:(done) (or_intror eq_refl)) as [Hdel Hcf].
+      rewrite (bindM_Ret _ _ _ _ _ Hdel). eexists. split; [reflexivity|]. split; [exact Hcf|].
+      exists (S (h_req h)). cbn. split; [lia|done].
+    - left. cbn zeta. split; [done|]. split; [done|].
+      assert (Ho2' : oracle (h_req h1) = false) by done.
+      rewrite (bindM_Ret _ _ _ _ _ (cJSON_strdup_ok _ _ HR1 Ho2')).
+      set (s := str_at h1 sb ++ [0%Z]). set (sid := h_next h1).
+      assert (Hl : h_next h ∈ h_live (new_str h1 s)) by (cbn; set_solver).
+      assert (Hd : h_dat (new_str h1 s) !! h_next h = Some (mk_dat (rd_of_type ty) [])) by (cbn; by rewrite lookup_insert).
+      rewrite (bindM_Ret _ _ _ _ _ (run_set_vstr_plain _ _ _ (Some sid) Hl Hd)).
+      assert (Heq : set_dat (new_str h1 s) (<[h_next h := nd_set_vstr (mk_dat (rd_of_type ty) []) (Some sid)]> (h_dat (new_str h1 s)))
+                    = new_string h ty (str_at h sb ++ [0%Z])).
+      { unfold set_dat, upd_maps, new_string, new_str, h1, new_node. cbn. f_equal. by rewrite insert_insert. }
+      rewrite Heq.
+      assert (Hl' : h_next h ∈ h_live (new_string h ty (str_at h sb ++ [0%Z]))) by (cbn; set_solver).
+      assert (Hd' : h_dat (new_string h ty (str_at h sb ++ [0%Z])) !! h_next h = Some (mk_dat (rd_string ty (Pos.succ (h_next h))) []))
+        by (cbn; by rewrite lookup_insert).
+      rewrite (bindM_Ret _ _ _ _ _ (run_get_vstr_plain _ _ _ Hl' Hd')). cbn [nd_vstr mk_dat rd_vstr rd_string is_null].
+      split; [reflexivity|]. split; [by apply WF_new_string|].
+      split; [by apply live_below_new_str, live_below_new_node|]. split; [by apply NoLeak_new_string|]. split.
+      + split; [cbn; set_solver|]. eexists. cbn. rewrite lookup_insert. split; [done|].
+        rewrite existsb_app. cbn. by rewrite orb_true_r.
+      + unfold str_at at 1. cbn. rewrite lookup_insert. apply cstr_app_zero.
+        unfold str_at. destruct (h_str h !! sb); [apply cstr_nonzero'|constructor].
+  Qed.
+
+  (** a NULL argument: no copy is made, the node is released again, NULL is returned *)
+  Lemma create_string_like_null ty h F :
+    WF h F -> live_below h ->
+    exists h', create_string_like oracle ty None h = Ret (None, h') /\ clean_failure h h'.
+  Proof.
+    intros W LB. unfold create_string_like, cJSON_New_Item.
+    destruct (oracle (h_req h)) eqn:Ho.
+    { exists (bump h). rewrite (bindM_Ret _ _ _ _ _ (run_alloc_node_fail _ _ Ho)). cbn [is_null].
+      split; [done|apply clean_failure_bump]. }
+    rewrite (bindM_Ret _ _ _ _ _ (run_alloc_node_ok _ _ Ho)). cbn [is_null].
+    rewrite (bindM_Ret _ _ _ _ _ (run_set_type_plain _ _ _ ty (new_node_live _ _) (new_node_dat _ _))).
+    rewrite (new_node_set h _ _ (rd_of_type ty)) by reflexivity.
+    set (h1 := new_node h (rd_of_type ty)).
+    rewrite (bindM_Ret _ _ _ _ _ (cJSON_strdup_null h1)). unfold h1.
+    rewrite (bindM_Ret _ _ _ _ _ (run_set_vstr_plain _ _ _ None (new_node_live _ _) (new_node_dat _ _))).
+    rewrite (new_node_set h _ _ (rd_of_type ty)) by reflexivity.
+    rewrite (bindM_Ret _ _ _ _ _ (run_get_vstr_plain _ _ _ (new_node_live _ _) (new_node_dat _ _))).
+    cbn [nd_vstr mk_dat rd_vstr rd_of_type is_null].
+    destruct (cJSON_Delete_new_node h F (rd_of_type ty) _ W LB (owned_strs_of_type ty) ltac:(done) (or_introl eq_refl)) as [Hdel Hcf].
+    rewrite (bindM_Ret _ _ _ _ _ Hdel). eexists. split; [reflexivity|exact Hcf].
+  Qed.
+
+  Lemma cJSON_CreateString_sim h F sb :
+    WF h F -> live_below h -> Readable h sb ->
+    (let id := h_next h in let d := rd_string c_cJSON_String (Pos.succ id) in
+     let h' := new_string h c_cJSON_String (str_at h sb ++ [0%Z]) in
+     oracle (h_req h) = false /\ oracle (S (h_req h)) = false /\
+     cJSON_CreateString oracle (Some sb) h = Ret (Some id, h') /\
+     WF h' (spec_create F id d) /\ live_below h' /\ (NoLeak h F -> NoLeak h' (spec_create F id d)) /\
+     Readable h' (Pos.succ id) /\ str_at h' (Pos.succ id) = str_at h sb)
+    \/ (exists h', cJSON_CreateString oracle (Some sb) h = Ret (None, h') /\ clean_failure h h' /\ refused oracle h h').
+  Proof. intros W LB HR. by apply create_string_like_sim. Qed.
+  Lemma cJSON_CreateRaw_sim h F sb :
+    WF h F -> live_below h -> Readable h sb ->
+    (let id := h_next h in let d := rd_string c_cJSON_Raw (Pos.succ id) in
+     let h' := new_string h c_cJSON_Raw (str_at h sb ++ [0%Z]) in
+     oracle (h_req h) = false /\ oracle (S (h_req h)) = false /\
+     cJSON_CreateRaw oracle (Some sb) h = Ret (Some id, h') /\
+     WF h' (spec_create F id d) /\ live_below h' /\ (NoLeak h F -> NoLeak h' (spec_create F id d)) /\
+     Readable h' (Pos.succ id) /\ str_at h' (Pos.succ id) = str_at h sb)
+    \/ (exists h', cJSON_CreateRaw oracle (Some sb) h = Ret (None, h') /\ clean_failure h h' /\ refused oracle h h').
+  Proof. intros W LB HR. by apply create_string_like_sim. Qed.
+  Lemma cJSON_CreateString_null h F : WF h F -> live_below h ->
+    exists h', cJSON_CreateString oracle None h = Ret (None, h') /\ clean_failure h h'.
+  Proof. apply create_string_like_null. Qed.
+  Lemma cJSON_CreateRaw_null h F : WF h F -> live_below h ->
+    exists h', cJSON_CreateRaw oracle None h = Ret (None, h') /\ clean_failure h h'.
+  Proof. apply create_string_like_null. Qed.
+End Constructors.
+
+(** * with an allocator that never refuses, every constructor succeeds *)
+Definition never : nat -> bool := fun _ => false.
+
+Lemma ctor1_total (m : M ptr) h F d :
+  ctor1_post never m h F d ->
+  m h = Ret (Some (h_next h), new_node h d) /\ WF (new_node h d) (spec_create F (h_next h) d) /\
+  live_below (new_node h d) /\ (NoLeak h F -> NoLeak (new_node h d) (spec_create F (h_next h) d)).
+Proof. intros [(_ & H)|(H & _)]; [exact H|done]. Qed.
+
+Lemma create_with_type_total ty h F : WF h F -> live_below h ->
+  create_with_type never ty h = Ret (Some (h_next h), new_node h (rd_of_type ty)) /\
+  WF (new_node h (rd_of_type ty)) (spec_create F (h_next h) (rd_of_type ty)).
+Proof. intros W LB. destruct (ctor1_total _ _ _ _ (create_with_type_sim never ty h F W LB)) as (H1 & H2 & _). done. Qed.
+Lemma cJSON_CreateNumber_total num h F : WF h F -> live_below h ->
+  cJSON_CreateNumber never num h = Ret (Some (h_next h), new_node h (rd_number num)) /\
+  WF (new_node h (rd_number num)) (spec_create F (h_next h) (rd_number num)).
+Proof. intros W LB. destruct (ctor1_total _ _ _ _ (cJSON_CreateNumber_sim never num h F W LB)) as (H1 & H2 & _). done. Qed.
+Lemma cJSON_CreateStringReference_total s h F : WF h F -> live_below h ->
+  cJSON_CreateStringReference never s h = Ret (Some (h_next h), new_node h (rd_string_ref s)) /\
+  WF (new_node h (rd_string_ref s)) (spec_create F (h_next h) (rd_string_ref s)).
+Proof. intros W LB. destruct (ctor1_total _ _ _ _ (cJSON_CreateStringReference_sim never s h F W LB)) as (H1 & H2 & _). done. Qed.
+Lemma cJSON_CreateObjectReference_total c h F : WF h F -> live_below h ->
+  cJSON_CreateObjectReference never c h = Ret (Some (h_next h), new_node h (rd_container_ref c_cJSON_Object c)) /\
+  WF (new_node h (rd_container_ref c_cJSON_Object c)) (spec_create F (h_next h) (rd_container_ref c_cJSON_Object c)).
+Proof. intros W LB. destruct (ctor1_total _ _ _ _ (cJSON_CreateObjectReference_sim never c h F W LB)) as (H1 & H2 & _). done. Qed.
+Lemma cJSON_CreateArrayReference_total c h F : WF h F -> live_below h ->
+  cJSON_CreateArrayReference never c h = Ret (Some (h_next h), new_node h (rd_container_ref c_cJSON_Array c)) /\
+  WF (new_node h (rd_container_ref c_cJSON_Array c)) (spec_create F (h_next h) (rd_container_ref c_cJSON_Array c)).
+Proof. intros W LB. destruct (ctor1_total _ _ _ _ (cJSON_CreateArrayReference_sim never c h F W LB)) as (H1 & H2 & _). done. Qed.
+
+Lemma cJSON_strdup_total h F sb : WF h F -> live_below h -> Readable h sb ->
+  let h' := new_str h (str_at h sb ++ [0%Z]) in
+  cJSON_strdup never (Some sb) h = Ret (Some (h_next h), h') /\ WF h' F /\ str_at h' (h_next h) = str_at h sb.
+Proof.
+  intros W LB HR. destruct (cJSON_strdup_sim never h F sb W LB HR) as [(_ & H1 & H2 & _ & _ & H3 & _)|(_ & _ & H)]; [done|].
+  by apply refused_false in H.
+Qed.
+Lemma cJSON_CreateString_total h F sb : WF h F -> live_below h -> Readable h sb ->
+  let id := h_next h in let d := rd_string c_cJSON_String (Pos.succ id) in
+  let h' := new_string h c_cJSON_String (str_at h sb ++ [0%Z]) in
+  cJSON_CreateString never (Some sb) h = Ret (Some id, h') /\ WF h' (spec_create F id d) /\
+  str_at h' (Pos.succ id) = str_at h sb.
+Proof.
+  intros W LB HR. destruct (cJSON_CreateString_sim never h F sb W LB HR) as [(_ & _ & H1 & H2 & _ & _ & _ & H3)|(h' & _ & _ & H)]; [done|].
+  by apply refused_false in H.
+Qed.
+Lemma cJSON_CreateRaw_total h F sb : WF h F -> live_below h -> Readable h sb ->
+  let id := h_next h in let d := rd_string c_cJSON_Raw (Pos.succ id) in
+  let h' := new_string h c_cJSON_Raw (str_at h sb ++ [0%Z]) in
+  cJSON_CreateRaw never (Some sb) h = Ret (Some id, h') /\ WF h' (spec_create F id d) /\
+  str_at h' (Pos.succ id) = str_at h sb.
+Proof.
+  intros W LB HR. destruct (cJSON_CreateRaw_sim never h F sb W LB HR) as [(_ & _ & H1 & H2 & _ & _ & _ & H3)|(h' & _ & _ & H)]; [done|].
+  by apply refused_false in H.
 Qed.
